@@ -6,6 +6,7 @@ import (
 	"fmt"
 	"strconv"
 	"strings"
+	"sync"
 	"time"
 
 	"shanhu.io/g/identity"
@@ -35,6 +36,12 @@ func passErr(err error) int {
 
 // passHistory runs one history of operations on a fresh role.
 func (r *run) passHistory(stream string, expiry int64, ops []PassOp) {
+	r.passHistoryFrom(stream, expiry, nil, ops)
+}
+
+// passHistoryFrom: same, starting from a stored record written directly (the
+// first "issued" code is then the record's code).
+func (r *run) passHistoryFrom(stream string, expiry int64, start *PassState, ops []PassOp) {
 	const name = "user"
 	b := roles.New(pisces.NewMemTables())
 	b.SetPassCodeExpiry(time.Duration(expiry))
@@ -42,7 +49,16 @@ func (r *run) passHistory(stream string, expiry int64, ops []PassOp) {
 		panic(err)
 	}
 	var codes []string
-	c := &Case{Stream: stream, Op: "pass", Expiry: z(expiry), Ops: ops}
+	c := &Case{Stream: stream, Op: "pass", Expiry: z(expiry), Ops: ops, Start: start}
+	if start != nil {
+		v, _ := strconv.ParseInt(start.Valid, 10, 64)
+		e, _ := strconv.ParseInt(start.Expire, 10, 64)
+		codes = append(codes, "12345678")
+		if err := b.VerifSetPassCode(name, &roles.VerifPassCode{Has: start.Has, Code: codes[0], HasValid: start.HasValid,
+			ValidNano: v, HasExpire: start.HasExp, ExpireNano: e, Consumed: start.Consumed, Tried: start.Tried}); err != nil {
+			panic(err)
+		}
+	}
 	c.Obs.Ok = true
 	for _, op := range ops {
 		t, _ := strconv.ParseInt(op.T, 10, 64)
@@ -79,7 +95,7 @@ func (r *run) passHistory(stream string, expiry int64, ops []PassOp) {
 		if e != nil {
 			panic(e)
 		}
-		res.St = PassState{Has: st.Has, Valid: z(st.ValidNano), Expire: z(st.ExpireNano), Consumed: st.Consumed,
+		res.St = PassState{Has: st.Has, HasValid: st.HasValid, HasExp: st.HasExpire, Valid: z(st.ValidNano), Expire: z(st.ExpireNano), Consumed: st.Consumed,
 			Tried: st.Tried, Disabled: st.Disabled}
 		for i, cd := range codes {
 			if st.Has && cd == st.Code {
@@ -119,6 +135,59 @@ func (r *run) passcodes() {
 		h = append(h, try(1, T+int64(k), 2), try(1, T+int64(k)+1, 3))
 		r.passHistory("passcode", 10*min, h)
 	}
+	// wrong codes stamped outside the window count as well: before the window
+	// opens, after it closed, and mixed with in-window ones
+	for _, k := range []int{9, 10, 11, 12, 30} {
+		h = []PassOp{nw(T)}
+		for i := 0; i < k; i++ {
+			h = append(h, try(-1-i, T-2*min-int64(i), 1))
+		}
+		h = append(h, try(1, T+1, 2), try(1, T+2, 3))
+		r.passHistory("passcode", 10*min, h)
+	}
+	h = []PassOp{nw(T)}
+	for i := 0; i < 5; i++ {
+		h = append(h, try(-1-i, T+int64(i), 1))
+	}
+	for i := 0; i < 6; i++ {
+		h = append(h, try(-10-i, T-min-1-int64(i), 1))
+	}
+	r.passHistory("passcode", 10*min, append(h, try(1, T+10, 2)))
+	h = []PassOp{nw(T)}
+	for i := 0; i < 12; i++ {
+		h = append(h, try(-1-i, T+11*min+int64(i), 1))
+	}
+	r.passHistory("passcode", 10*min, append(h, try(1, T+10, 2), nw(T+20), try(2, T+21, 3)))
+	h = []PassOp{nw(T)}
+	for i := 0; i < 11; i++ {
+		h = append(h, try(0, T+int64(i), 1)) // empty claims are attempts too
+	}
+	r.passHistory("passcode", 10*min, append(h, try(1, T+20, 2)))
+	// stored records that NewPassCode would not write: no window, odd counters
+	const maxInt = int64(^uint64(0) >> 1)
+	for _, st := range []PassState{
+		{Has: true, HasValid: false, HasExp: true, Expire: z(T + 10*min)},
+		{Has: true, HasValid: true, Valid: z(T - min), HasExp: false},
+		{Has: true},
+		{Has: true, HasValid: true, Valid: z(T - min), HasExp: true, Expire: z(T + 10*min), Tried: 9},
+		{Has: true, HasValid: true, Valid: z(T - min), HasExp: true, Expire: z(T + 10*min), Tried: 10},
+		{Has: true, HasValid: true, Valid: z(T - min), HasExp: true, Expire: z(T + 10*min), Tried: 11},
+		{Has: true, HasValid: true, Valid: z(T - min), HasExp: true, Expire: z(T + 10*min), Tried: -5},
+		{Has: true, HasValid: true, Valid: z(T - min), HasExp: true, Expire: z(T + 10*min), Tried: int(maxInt)},
+		{Has: true, HasValid: true, Valid: z(T - min), HasExp: true, Expire: z(T + 10*min), Tried: int(maxInt - 1)},
+		{Has: true, HasValid: true, Valid: z(T - min), HasExp: true, Expire: z(T + 10*min), Consumed: true},
+	} {
+		st := st
+		st.Code = 1
+		if st.Valid == "" {
+			st.Valid = "0"
+		}
+		if st.Expire == "" {
+			st.Expire = "0"
+		}
+		r.passHistoryFrom("passcode-raw", 10*min, &st, []PassOp{try(-1, T, 1), try(1, T+1, 2), try(1, T+2, 3), nw(T + 3), try(2, T+4, 4)})
+	}
+	r.passConcurrent()
 	// re-issue resets; stale code; disabled role; no code; empty claim
 	r.passHistory("passcode", 10*min, []PassOp{try(-1, T, 1), try(0, T, 1), nw(T), try(0, T, 1), try(-1, T, 1), nw(T + 5), try(1, T+6, 1), try(2, T+7, 2), try(2, T+8, 3)})
 	r.passHistory("passcode", 10*min, []PassOp{nw(T), {Op: "disable"}, try(1, T, 1), try(-1, T, 1), nw(T + 1), {Op: "enable"}, try(1, T+2, 2), nw(T + 3), try(2, T+3, 4)})
@@ -193,6 +262,69 @@ func (r *run) passcodes() {
 		}
 		h = append(h, try(1, T+int64(k), 3))
 		r.passHistory("passcode", 10*min, h)
+	}
+}
+
+// passConcurrent: many callers at once (each operation is one KV Mutate, which
+// C06 shows atomic): a code is accepted at most once however the calls race,
+// also against a concurrent re-issue.  Implementation-only; the observation is
+// projected to counts that do not depend on the schedule.
+func (r *run) passConcurrent() {
+	const name = "user"
+	T := int64(1700000000) * int64(time.Second)
+	for round := 0; round < 4; round++ {
+		b := roles.New(pisces.NewMemTables())
+		if err := b.New(name, time.Unix(0, 0)); err != nil {
+			panic(err)
+		}
+		code, err := b.NewPassCode(name, time.Unix(0, T))
+		if err != nil {
+			panic(err)
+		}
+		const n = 8
+		res := make([]error, n)
+		var wg sync.WaitGroup
+		var code2 string
+		for i := 0; i < n; i++ {
+			wg.Add(1)
+			go func(i int) {
+				defer wg.Done()
+				id := &identity.Identity{PublicKeys: []*identity.PublicKey{{ID: "id" + strconv.Itoa(i+1)}}}
+				res[i] = b.SetupWithCode(name, id, code.Code, time.Unix(0, T+int64(i)))
+			}(i)
+		}
+		if round%2 == 1 {
+			wg.Add(1)
+			go func() {
+				defer wg.Done()
+				if c2, err := b.NewPassCode(name, time.Unix(0, T+5)); err == nil {
+					code2 = c2.Code
+				}
+			}()
+		}
+		wg.Wait()
+		accepted := 0
+		for _, e := range res {
+			if e == nil {
+				accepted++
+			}
+		}
+		st, _ := b.VerifPassCodeState(name)
+		ok := accepted <= 1
+		if round%2 == 0 {
+			ok = accepted == 1 && st.Consumed && st.Tried == n && st.HasID
+		} else {
+			// after the race the record is either the re-issued code (fresh or
+			// already tried with the old code) or the consumed old one
+			ok = ok && (st.Code == code2 || (st.Code == code.Code && st.Consumed))
+		}
+		c := &Case{Stream: "passcode-concurrent", Op: "passconc", Note: "8 concurrent attempts with the right code" +
+			map[bool]string{true: " and a concurrent re-issue", false: ""}[round%2 == 1], N: round}
+		c.Obs.Ok = ok
+		if !ok {
+			c.Obs.ErrText = fmt.Sprintf("accepted=%d consumed=%v tried=%d", accepted, st.Consumed, st.Tried)
+		}
+		r.emit(c)
 	}
 }
 
